@@ -37,7 +37,9 @@ def run(ck):
     lits = prog.literals
 
     def in_fn(l, fn):
-        return l["file"] == fn.file and fn.lo <= l["line"] <= fn.hi
+        # the function's own source range, or that of a helper the inliner folded into it
+        return (l["file"] == fn.file and fn.lo <= l["line"] <= fn.hi) or \
+            any(l["file"] == f_ and lo <= l["line"] <= hi for f_, lo, hi in fn.absorbed_spans)
 
     parser_prefixes = {}
     for l in lits:
@@ -49,6 +51,8 @@ def run(ck):
 
     # ---- R1 --------------------------------------------------------------------------------------------
     keywords = []      # (text, line, kind)
+    # a keyword handed to write_all directly, or to a helper of the header writer that was folded into it (and writes it there)
+    writer_callees = {"write_all"} | {a.split("::")[-1] for f_ in (hdr, hh) for a in f_.raw.get("absorbed", [])}
     for l in lits:
         if not (in_fn(l, hdr) or in_fn(l, hh)):
             continue
@@ -56,7 +60,7 @@ def run(ck):
             pieces = l["pieces"]
             if pieces and "lit" in pieces[0]:
                 keywords.append((pieces[0]["lit"], l["line"], "template", pieces))
-        elif l["kind"] == "bytes" and l.get("callee") == "write_all":
+        elif l["kind"] == "bytes" and l.get("callee") in writer_callees:
             if l["val"] not in SEPARATORS:
                 keywords.append((l["val"], l["line"], "write_all", None))
     ck.count("writer line-start keywords", len(keywords))
@@ -76,7 +80,8 @@ def run(ck):
                 ck.require(okp, "C12-R1", "inner piece %r of the %r template" % (ip, text),
                            "the template piece %r matches no literal the parser expects at that position" % ip, "%s:%d" % (WRITER_FILE, line))
     # line markers
-    wmarks = sorted({l["val"] for l in lits if in_fn(l, hw) and l["kind"] == "byte" and l.get("callee") == "write_line"})
+    line_writers = {"write_line"} | {a.split("::")[-1] for a in hw.raw.get("absorbed", [])}
+    wmarks = sorted({l["val"] for l in lits if in_fn(l, hw) and l["kind"] == "byte" and l.get("callee") in line_writers})
     pmarks = sorted({l["val"] for l in lits if in_fn(l, phl) and l["kind"] == "byte"})
     ck.require(bool(wmarks) and all(m in pmarks for m in wmarks) and len(wmarks) == 3, "C12-R1", "hunk line markers",
                "writer markers %s, parser markers %s" % (wmarks, pmarks), hw.where(), ok_detail="writer %s within parser %s" % (wmarks, pmarks))
@@ -176,8 +181,8 @@ def run(ck):
         for bb, t in f.calls():
             if (callee_of(t).get("path") or "").endswith("Write::write_all"):
                 e = df.operand_expr(f, t["args"][1])
-                if df.is_const(e) and isinstance(e[1], str) and len(e[1]) > 2:
-                    markers.append((e[1], f.where(t)))
+                if df.is_const(e) and isinstance(e[1], str) and len(e[1]) > 2 and e[1] not in [m[0] for m in markers]:
+                    markers.append((e[1], f.where(t)))      # (a line-writing helper inlined at several sites writes the same marker)
     tested = []
     for bb, idx, st in phl.stmts():
         if st["k"] == "assign" and st["rv"]["k"] == "bin" and st["rv"]["op"] == "Eq":
@@ -194,6 +199,20 @@ def run(ck):
                         ie = df.local_expr(phl, idxs[0]["index"])
                         if df.is_const(ie) and isinstance(ie[1], int) and ie[1] < len(base[1]):
                             tested.append(ord(base[1][ie[1]]))
+    # the same test spelled as a comparison of Options: first() ==/!= Some(&MARKER[0])
+    for bb, t in phl.calls():
+        if phl.blocks[bb]["cleanup"] or (callee_of(t).get("rpath") or "").split("::")[-1] not in ("eq", "ne") or \
+                not all("u8" in a and "[u8]" not in a for a in t["argtys"]):
+            continue
+        for a in t["args"]:
+            for x in df.walk(df.operand_expr(phl, a)):
+                if isinstance(x, tuple) and x and x[0] == "index" and df.is_const(x[1]) and isinstance(x[1][1], str) and \
+                        isinstance(x[2], tuple) and x[2][0] == "localidx":
+                    ie = df.local_expr(phl, x[2][1])
+                    if df.is_const(ie) and isinstance(ie[1], int) and ie[1] < len(x[1][1]):
+                        tested.append(ord(x[1][1][ie[1]]))
+                elif df.is_const(x) and len(x) > 2 and x[2] == "u8" and isinstance(x[1], int):
+                    tested.append(x[1])
     ck.require(len(markers) == 1 and markers[0][0].endswith("\n") and tested == [ord(markers[0][0][0])], "C12-R3",
                "the no-newline marker written is the one the parser tests for",
                "writer marker(s) %s, parser tests first byte(s) %s" % ([m[0] for m in markers], tested), hw.where(),
